@@ -43,6 +43,8 @@ struct Shadow {
     minted: BTreeSet<u64>,
     burned: u64,
     started: bool,
+    /// the start time the admin last set (the creation value until an UpdateStartTime is accepted)
+    start: Option<u64>,
 }
 
 fn recipient_index(user: usize, recip: &Recip) -> Option<usize> {
@@ -67,6 +69,7 @@ fn monitor(
 ) -> Vec<(String, String)> {
     let mut v: Vec<(String, String)> = vec![];
     let nc = case.ncolls;
+    let start_ledger = *sh.start.get_or_insert(pre.start);
     macro_rules! bad {
         ($k:expr, $w:expr) => {
             v.push((format!("C17:{}", $k), $w))
@@ -84,14 +87,26 @@ fn monitor(
         if pre != post || !digest_same {
             bad!("rejected-changed-state", format!("rejected {:?} changed observable state or minter storage", st.op));
         }
+        // a well-formed deposit by the token's owner that completes the recipient's set, after the start time, with
+        // the recipient under its limit and tokens left, must mint -- whatever governance did to the factory since
+        if let Op::Send { coll, user, tok, garbage: false, recip } = &st.op {
+            if let (Some(r), true, Some(amt)) = (recipient_index(*user, recip), case.regular(), case.required_amount(*coll)) {
+                let owned = case.src.iter().position(|(c, t, _)| c == coll && t == tok).map(|i| pre.src[i] == ACCOUNTS[*user].1).unwrap_or(false);
+                let had = *sh.credited.get(&(r, *coll)).unwrap_or(&0);
+                let completes = had + 1 == amt && case.req.iter().all(|(c, a)| c == coll || *sh.credited.get(&(r, *c)).unwrap_or(&0) >= *a);
+                if owned && completes && st.at > start_ledger && pre.counts[r] < pre.limit && pre.mintable > 0 {
+                    bad!("complete-but-no-mint", format!("the deposit completing the set of recipient {} (after start, under its limit, {} tokens left) was rejected", r, pre.mintable));
+                }
+            }
+        }
         return v;
     }
     let new_tgt: Vec<usize> = (0..pre.tgt.len()).filter(|i| pre.tgt[*i] == 0 && post.tgt[*i] != 0).collect();
     match &st.op {
         Op::Send { coll, user, tok, recip, .. } => {
             let amt = case.required_amount(*coll);
-            if st.at <= pre.start {
-                bad!("deposit-not-after-start", format!("deposit accepted at {} with start time {}", st.at, pre.start));
+            if st.at <= start_ledger {
+                bad!("deposit-not-after-start", format!("deposit accepted at {} with start time {} (as last set by the admin)", st.at, start_ledger));
             }
             if amt.is_none() {
                 bad!("foreign-collection-accepted", format!("deposit from collection {} which is not required was accepted", coll));
@@ -181,6 +196,14 @@ fn monitor(
         if pre.mintable == 0 {
             sh.received.clear(); // the documented reset once the sale is sold out
         }
+    }
+    // the start time reported is the one the admin last set
+    if let Op::UpdStart { t, .. } = &st.op {
+        sh.start = Some(*t);
+    }
+    let want_start = sh.start.unwrap_or(pre.start);
+    if (post.start != want_start || post.start_query != cosmwasm_std::Timestamp::from_nanos(want_start).to_string()) && v.is_empty() {
+        v.push(("C17:start-time-differs-from-ledger".into(), format!("Config.start_time {} / StartTime {:?}, the admin last set {}", post.start, post.start_query, want_start)));
     }
     // MintCount shows exactly the tokens an address was minted (since the sold-out purge, if any)
     for a in 0..NACC {
@@ -301,7 +324,8 @@ fn run_case(case: &Case) -> Result<RunOut, String> {
         if !dead {
             let mut vs = monitor(case, st, ok, &pre, &post, d0 == d1, &mut sh, &mut out.notes);
             vs.extend(monitor_supply(case, st, ok, pick, burned_evt, &pre, &post, &mut sh));
-            if !vs.is_empty() {
+            // a wrong start-time report does not invalidate the monitors' own bookkeeping: keep judging deposits
+            if vs.iter().any(|(k, _)| k != "C17:start-time-differs-from-ledger") {
                 dead = true;
             }
             for (k, what) in vs {
@@ -516,6 +540,71 @@ fn corpus() -> Vec<Case> {
     b.dep(0, 1, Recip::None);
     out.push(b.case);
     out.extend(migrate_cases());
+    out.extend(freeze_and_subsecond_cases());
+    out
+}
+
+/// governance freezes / unfreezes the factory around partial deposits, completing deposits and airdrops (a freeze
+/// forbids creating minters, not minting); UpdateStartTime with sub-second values and deposits around the new start
+fn freeze_and_subsecond_cases() -> Vec<Case> {
+    let mut out = vec![];
+    let mut b = B::new("corpus-freeze", &[2, 1], 3, 2);
+    b.case.airdrop_price = 1000;
+    let p = b.pay();
+    b.dep(0, 1, Recip::None);
+    b.push(sudo_frozen(true)); // between partial deposits
+    b.dep(0, 1, Recip::None);
+    b.dep(1, 1, Recip::None); // completes while frozen: must mint
+    b.push(Op::MintTo { caller: 0, recip: Recip::Addr(2), funds: p.clone() }); // airdrop while frozen
+    b.push(Op::Shuffle { caller: 2, funds: vec![(0, 500)] });
+    b.push(Op::UpdLimit { caller: 0, l: 3, funds: vec![] });
+    b.push(sudo_frozen(false));
+    b.dep(0, 2, Recip::Addr(3));
+    b.dep(1, 2, Recip::Addr(3));
+    b.push(sudo_frozen(true)); // right before the completing deposit
+    b.dep(0, 2, Recip::Addr(3));
+    b.push(sudo_frozen(true));
+    b.push(Op::MintTo { caller: 0, recip: Recip::Addr(2), funds: p.clone() }); // nothing left
+    out.push(b.case);
+    for (vi, vec) in [vec![2u32], vec![1, 1], vec![3, 1], vec![1, 2, 1]].into_iter().enumerate() {
+        let mut b = B::new(&format!("probe-freeze-{:?}", vec), &vec, 3, 3);
+        let total: u32 = vec.iter().sum();
+        for round in 0..2 {
+            let mut k = 0;
+            for c in 0..vec.len() {
+                for _ in 0..vec[c] {
+                    k += 1;
+                    if k == total || (k == 1 && vi % 2 == 0) {
+                        b.push(sudo_frozen(true));
+                    }
+                    b.dep(c, 1 + round, Recip::None);
+                }
+            }
+            if round == 0 {
+                b.push(sudo_frozen(false));
+            }
+        }
+        b.push(Op::MintTo { caller: 0, recip: Recip::Addr(3), funds: vec![] });
+        out.push(b.case);
+    }
+    // sub-second start times: S + f for f = 1 ns, 0.9 s, 999 999 999 ns
+    let s0 = chain::GENESIS_NS + 10_000_000_000;
+    for f in [1u64, 900_000_000, 999_999_999] {
+        let mut b = B::new(&format!("probe-substart-{}", f), &[1], 3, 3);
+        let new = s0 + f;
+        let tok = b.fresh(0, 1);
+        let send = Op::Send { coll: 0, user: 1, tok, garbage: false, recip: Recip::None };
+        b.at(s0 + f / 2).push(Op::UpdStart { caller: 0, t: new, funds: vec![] });
+        b.at(s0 + f / 2).push(send.clone()); // same block as the update
+        b.at(s0 + f * 7 / 9).push(Op::UpdStart { caller: 0, t: new, funds: vec![] }); // again, later inside the second
+        b.at(s0 + f * 7 / 9).push(send.clone());
+        b.at(new - 1).push(send.clone());
+        b.at(new).push(send.clone());
+        b.at(new).push(Op::UpdStart { caller: 0, t: new + 5, funds: vec![] }); // already started
+        b.at(new + 1).push(send.clone());
+        b.at(new + 1).push(send.clone()); // burned
+        out.push(b.case);
+    }
     out
 }
 
@@ -564,7 +653,7 @@ fn mig(who: usize, stored: Option<(String, String)>) -> Op {
     Op::Migrate { who, stored }
 }
 fn sudo(max_limit: Option<u32>, airdrop_price: Option<u128>, shuffle_fee: Option<u128>) -> Op {
-    Op::SudoParams { max_limit, airdrop_price, shuffle_fee, add_code_id: None, offset: None }
+    Op::SudoParams { max_limit, airdrop_price, shuffle_fee, add_code_id: None, offset: None, frozen: None, code_id: None, rm_code_id: None, creation_fee: None, max_token_limit: None, airdrop_fee_bps: None }
 }
 
 /// migrations and factory governance between partial deposits, after a completed merge,
@@ -629,7 +718,7 @@ fn migrate_cases() -> Vec<Case> {
     b.push(Op::MintTo { caller: 0, recip: Recip::Addr(2), funds: p.clone() }); // old price
     b.push(Op::MintTo { caller: 0, recip: Recip::Addr(2), funds: vec![(0, 700)] });
     b.push(Op::Shuffle { caller: 2, funds: vec![] });
-    b.push(Op::SudoParams { max_limit: None, airdrop_price: None, shuffle_fee: None, add_code_id: Some(77), offset: Some(5) });
+    b.push(Op::SudoParams { max_limit: None, airdrop_price: None, shuffle_fee: None, add_code_id: Some(77), offset: Some(5), frozen: None, code_id: Some(999), rm_code_id: Some(77), creation_fee: Some(7), max_token_limit: Some(2), airdrop_fee_bps: Some(5000) });
     b.dep(0, 2, Recip::None); // count 1, limit now 1
     b.push(mig(CREATOR, Some((name.clone(), ver.clone()))));
     b.push(Op::UpdLimit { caller: 0, l: 3, funds: vec![] });
@@ -871,7 +960,11 @@ fn random_history(rng: &mut Rng, idx: usize, grid: &[(String, String)]) -> Case 
             let fee = b.case.shuffle_fee;
             b.push(Op::Shuffle { caller: rng.range(0, 5) as usize, funds: if rng.chance(3, 4) { vec![(0, fee)] } else { vec![] } });
         } else if k < 99 {
-            b.push(sudo(if rng.chance(1, 2) { Some(rng.range(1, 4) as u32) } else { None }, if rng.chance(1, 3) { Some(b.case.airdrop_price) } else { None }, None));
+            if rng.chance(1, 2) {
+                b.push(sudo_frozen(rng.chance(2, 3)));
+            } else {
+                b.push(sudo(if rng.chance(1, 2) { Some(rng.range(1, 4) as u32) } else { None }, if rng.chance(1, 3) { Some(b.case.airdrop_price) } else { None }, None));
+            }
         } else {
             let stored = if rng.chance(1, 3) { None } else { Some(rng.pick(grid).clone()) };
             b.push(mig(if rng.chance(3, 4) { CREATOR } else { rng.range(1, 5) as usize }, stored));
